@@ -17,7 +17,8 @@ from .replay import src_dir
 from .scalars import SInt, SBool, SReal, is_sym, it, mkint, mkbool, e_and, e_or, e_eq, e_lt, e_le, e_not, e_add
 from .snp import ndarray, npscalar
 
-REWRITES = ["len(e) -> _sx_len(e)", "type(e) -> _sx_type(e)", "float/int/bool(e) -> _sx_float/int/bool(e)"]
+REWRITES = ["len(e) -> _sx_len(e)", "type(e) -> _sx_type(e)", "float/int/bool(e) -> _sx_float/int/bool(e)",
+            "a.dtype.type(e) -> _sx_dtype_type(a.dtype, e)"]
 
 
 class _RW(ast.NodeTransformer):
@@ -27,6 +28,9 @@ class _RW(ast.NodeTransformer):
         self.generic_visit(n)
         if isinstance(n.func, ast.Name) and n.func.id in self.NAMES:
             n.func = ast.Name("_sx_" + n.func.id, ast.Load())
+        elif (isinstance(n.func, ast.Attribute) and n.func.attr == "type" and isinstance(n.func.value, ast.Attribute)
+              and n.func.value.attr == "dtype" and len(n.args) == 1 and not n.keywords):
+            n = ast.copy_location(ast.Call(ast.Name("_sx_dtype_type", ast.Load()), [n.func.value, n.args[0]], []), n)
         return n
 
 
@@ -51,6 +55,16 @@ def sx_type(*a):
     if isinstance(x, SBool):
         return bool
     return type(x)
+
+
+def sx_dtype_type(dt, x):
+    """numpy scalar constructor dt.type(x) for a symbolic x: a shim scalar of that dtype."""
+    if isinstance(x, ndarray) or is_sym(x):
+        import numpy as rnp
+        from . import snp
+        d = rnp.dtype(dt)
+        return snp.mkscalar(snp.cast(x, d), d)
+    return dt.type(x)
 
 
 def sx_float(x=0.0):
@@ -171,7 +185,8 @@ def load_catii(kernels="summary", modules=("iindexes", "ffuncs", "xfuncs", "ccub
     C = Catii()
     pkg = types.ModuleType("catii")
     pkg.__path__ = []
-    helpers = {"_sx_len": sx_len, "_sx_type": sx_type, "_sx_float": sx_float, "_sx_int": sx_int, "_sx_bool": sx_bool}
+    helpers = {"_sx_len": sx_len, "_sx_type": sx_type, "_sx_float": sx_float, "_sx_int": sx_int, "_sx_bool": sx_bool,
+               "_sx_dtype_type": sx_dtype_type}
     try:
         sys.modules["catii"] = pkg
         sys.modules["numpy"] = snp_funcs.NUMPY
